@@ -337,3 +337,476 @@ Proof.
   intros Hs. rewrite connect_ack_is_diag. rewrite connect_ack_size_eq in *. cbv zeta in *.
   eapply diag_np; [apply wlen_put|apply connect_ack_fixed_wlen|exact I|apply connect_ack_fixed_wnp|exact Hs].
 Qed.
+
+(* ------------------------------------------------------------------ SUBSCRIBE / UNSUBSCRIBE *)
+Lemma wlen_opt_sub_id o :
+  wlen (match o with Some id => w_sub_id id | None => wnop end)
+       (match o with Some v => 1 + var_int_len v | None => 0 end).
+Proof. destruct o; [apply wlen_sub_id|apply wlen_nop]. Qed.
+
+Lemma subscribe_len s lim sz : subscribe_encoded_size s lim <= VI_MAX ->
+  wlen (subscribe_encode s sz) (subscribe_encoded_size s lim).
+Proof.
+  unfold subscribe_encode, subscribe_encoded_size. set (PL := subscribe_prop_len s). intros Hs.
+  rewrite mod32_small by lia.
+  eapply wlen_eq;
+    [eapply wlen_then; [apply wlen_u16|eapply wlen_then; [apply wlen_vi|
+       eapply wlen_then; [apply wlen_opt_sub_id|wlen_struct]]]|].
+  unfold PL, subscribe_prop_len. lia.
+Qed.
+Lemma subscribe_np s lim sz : subscribe_encoded_size s lim <= VI_MAX -> wnp (subscribe_encode s sz).
+Proof.
+  unfold subscribe_encode, subscribe_encoded_size. set (PL := subscribe_prop_len s). intros Hs.
+  rewrite mod32_small by lia. wnp_struct; try apply wnp_sub_id. apply wnp_vi. lia.
+Qed.
+
+Lemma unsubscribe_len u lim sz : unsubscribe_encoded_size u lim <= VI_MAX ->
+  wlen (unsubscribe_encode u sz) (unsubscribe_encoded_size u lim).
+Proof.
+  unfold unsubscribe_encode, unsubscribe_encoded_size. intros Hs. rewrite mod32_small by lia. wlen_tac.
+Qed.
+Lemma unsubscribe_np u lim sz : unsubscribe_encoded_size u lim <= VI_MAX -> wnp (unsubscribe_encode u sz).
+Proof.
+  unfold unsubscribe_encode, unsubscribe_encoded_size. intros Hs. rewrite mod32_small by lia.
+  wnp_struct. apply wnp_vi. lia.
+Qed.
+
+(* ------------------------------------------------------------------ CONNECT *)
+Lemma es_bytes_MQTT : es_bytes MQTT = 6.
+Proof. reflexivity. Qed.
+
+Lemma connect_len c lim sz : connect_encoded_size c lim <= VI_MAX ->
+  wlen (connect_encode c sz) (connect_encoded_size c lim).
+Proof.
+  unfold connect_encode, connect_encoded_size. cbv zeta.
+  destruct (c_last_will c) as [w|]; destruct (c_username c) as [u|]; destruct (c_password c) as [pw|];
+    intros Hs; rewrite !mod32_small by lia;
+    (eapply wlen_eq; [wlen_struct|]); rewrite es_bytes_MQTT; unfold connect_properties_len, will_properties_len;
+    autorewrite with len; lia.
+Qed.
+Lemma connect_np c lim sz : connect_encoded_size c lim <= VI_MAX -> wnp (connect_encode c sz).
+Proof.
+  unfold connect_encode, connect_encoded_size. cbv zeta.
+  destruct (c_last_will c) as [w|]; destruct (c_username c) as [u|]; destruct (c_password c) as [pw|];
+    intros Hs; rewrite !mod32_small by lia; wnp_struct; apply wnp_vi; lia.
+Qed.
+
+(* ------------------------------------------------------------------ PUBLISH *)
+Definition publish_props_len (p : publish_properties) : N :=
+  eps sz2 (pp_topic_alias p)
+  + eps es_bytes (pp_correlation_data p)
+  + eps sz4 (pp_message_expiry_interval p)
+  + eps es_bytes (pp_content_type p)
+  + eps_default sz1 (Bool.eqb (pp_is_utf8_payload p) false) (pp_is_utf8_payload p)
+  + eps es_bytes (pp_response_topic p)
+  + sub_ids_size (pp_subscription_ids p)
+  + es_uprops (pp_user_properties p).
+
+Lemma ppes_eq p lim :
+  publish_properties_encoded_size p lim = publish_props_len p + var_int_len (publish_props_len p).
+Proof. reflexivity. Qed.
+
+Lemma publish_properties_len p lim : publish_props_len p <= VI_MAX ->
+  wlen (publish_properties_encode p (publish_properties_encoded_size p lim))
+       (publish_properties_encoded_size p lim).
+Proof.
+  intros Hs. rewrite ppes_eq. unfold publish_properties_encode.
+  rewrite varlen_inverse by lia. cbn [wlet].
+  eapply wlen_eq; [wlen_struct|]. unfold publish_props_len. lia.
+Qed.
+Lemma publish_properties_np p lim : publish_props_len p <= VI_MAX ->
+  wnp (publish_properties_encode p (publish_properties_encoded_size p lim)).
+Proof.
+  intros Hs. rewrite ppes_eq. unfold publish_properties_encode.
+  rewrite varlen_inverse by lia. cbn [wlet]. wnp_struct; [apply wnp_vi; lia|apply wnp_sub_ids].
+Qed.
+
+Definition publish_first_byte (p : publish) : N :=
+  PT_PUBLISH_START + p_qos p * 2 + b2n (p_dup p) * 8 + b2n (p_retain p).
+
+Definition publish_hdr (p : publish) : wr :=
+  w_bytes (p_topic p) >>>
+  (if p_qos p =? 0 then
+     match p_packet_id p with Some _ => wfail EE_MalformedPacket | None => wnop end
+   else
+     match p_packet_id p with None => wfail EE_PacketIdRequired | Some id => w_u16 id end).
+
+Lemma publish_hdr_len p : wlen (publish_hdr p) (es_bytes (p_topic p) + (if p_qos p =? 0 then 0 else 2)).
+Proof.
+  unfold publish_hdr. apply wlen_then; [apply wlen_bytes|].
+  destruct (p_qos p =? 0); destruct (p_packet_id p); try apply wlen_fail; [apply wlen_nop|apply wlen_u16].
+Qed.
+Lemma publish_hdr_np p : wnp (publish_hdr p).
+Proof. unfold publish_hdr. wnp_struct. Qed.
+
+Lemma publish_encode_eq p size :
+  publish_encode p size =
+  w_u8 (publish_first_byte p) >>> w_vi size >>>
+  wseq (publish_hdr p) (fun hdr =>
+    wlet (sub_chk size ((len hdr + p_payload_size p) mod TWO32)) (fun psize =>
+      publish_properties_encode (p_properties p) psize)).
+Proof. reflexivity. Qed.
+
+Lemma publish_size_props_le p lim : publish_props_len (p_properties p) <= publish_encoded_size p lim.
+Proof. unfold publish_encoded_size. rewrite ppes_eq. lia. Qed.
+
+(* body of a publish frame: topic, packet id, properties (the payload follows) *)
+Definition publish_body (p : publish) (size : N) : wr :=
+  wseq (publish_hdr p) (fun hdr =>
+    wlet (sub_chk size ((len hdr + p_payload_size p) mod TWO32)) (fun psize =>
+      publish_properties_encode (p_properties p) psize)).
+
+Lemma publish_body_len p lim : publish_encoded_size p lim <= VI_MAX ->
+  wlen (publish_body p (publish_encoded_size p lim)) (publish_encoded_size p lim - p_payload_size p).
+Proof.
+  intros Hs. pose proof (publish_size_props_le p lim) as Hp. unfold publish_body.
+  eapply wlen_eq.
+  - eapply wlen_seq; [apply publish_hdr_len|]. intros x Hx.
+    rewrite (publish_hdr_len p _ Hx).
+    unfold publish_encoded_size in *.
+    set (pid := if p_qos p =? 0 then 0 else 2) in *.
+    set (PP := publish_properties_encoded_size (p_properties p) lim) in *.
+    rewrite mod32_small by lia. rewrite sub_chk_ok by lia. cbn [wlet].
+    replace (es_bytes (p_topic p) + pid + PP + p_payload_size p - (es_bytes (p_topic p) + pid + p_payload_size p))
+      with PP by lia.
+    apply publish_properties_len. lia.
+  - unfold publish_encoded_size. lia.
+Qed.
+Lemma publish_body_np p lim : publish_encoded_size p lim <= VI_MAX ->
+  wnp (publish_body p (publish_encoded_size p lim)).
+Proof.
+  intros Hs. pose proof (publish_size_props_le p lim) as Hp. unfold publish_body.
+  apply wnp_seq; [apply publish_hdr_np|]. intros x Hx.
+  rewrite (publish_hdr_len p _ Hx).
+  unfold publish_encoded_size in *.
+  set (pid := if p_qos p =? 0 then 0 else 2) in *.
+  set (PP := publish_properties_encoded_size (p_properties p) lim) in *.
+  rewrite mod32_small by lia. rewrite sub_chk_ok by lia. cbn [wlet].
+  replace (es_bytes (p_topic p) + pid + PP + p_payload_size p - (es_bytes (p_topic p) + pid + p_payload_size p))
+    with PP by lia.
+  apply publish_properties_np. lia.
+Qed.
+
+(* ================================================================== whole packets *)
+Definition first_byte (p : packet) : N :=
+  match p with
+  | Connect _ => PT_CONNECT | ConnectAck _ => PT_CONNACK
+  | PublishAck _ => PT_PUBACK | PublishReceived _ => PT_PUBREC
+  | PublishRelease _ => PT_PUBREL | PublishComplete _ => PT_PUBCOMP
+  | Subscribe _ => PT_SUBSCRIBE | SubscribeAck _ => PT_SUBACK
+  | Unsubscribe _ => PT_UNSUBSCRIBE | UnsubscribeAck _ => PT_UNSUBACK
+  | PingRequest => PT_PINGREQ | PingResponse => PT_PINGRESP
+  | Disconnect _ => PT_DISCONNECT | Auth _ => PT_AUTH
+  end.
+
+(* what follows the fixed header *)
+Definition body_encode (p : packet) (sz : N) : wr :=
+  match p with
+  | Connect c => connect_encode c sz
+  | ConnectAck a => connect_ack_encode a sz
+  | PublishAck a | PublishReceived a => publish_ack_encode a sz
+  | PublishRelease a | PublishComplete a => publish_ack2_encode a sz
+  | Subscribe s => subscribe_encode s sz
+  | SubscribeAck a => subscribe_ack_encode a sz
+  | Unsubscribe u => unsubscribe_encode u sz
+  | UnsubscribeAck a => unsubscribe_ack_encode a sz
+  | PingRequest | PingResponse => wnop
+  | Disconnect d => disconnect_encode d sz
+  | Auth a => auth_encode a sz
+  end.
+
+Lemma body_len p lim : lim <= VI_MAX -> packet_encoded_size p lim <= lim ->
+  wlen (body_encode p (packet_encoded_size p lim)) (packet_encoded_size p lim).
+Proof.
+  intros Hl Hs. destruct p; cbn [body_encode packet_encoded_size] in *.
+  - apply connect_len; lia.
+  - apply connect_ack_len; lia.
+  - apply publish_ack_len; lia.
+  - apply publish_ack_len; lia.
+  - apply publish_ack2_len; lia.
+  - apply publish_ack2_len; lia.
+  - apply subscribe_len; lia.
+  - apply subscribe_ack_len; lia.
+  - apply unsubscribe_len; lia.
+  - apply unsubscribe_ack_len; lia.
+  - apply wlen_nop.
+  - apply wlen_nop.
+  - apply disconnect_len; lia.
+  - apply auth_len; lia.
+Qed.
+
+Lemma body_np p lim : lim <= VI_MAX -> packet_encoded_size p lim <= lim ->
+  wnp (body_encode p (packet_encoded_size p lim)).
+Proof.
+  intros Hl Hs. destruct p; cbn [body_encode packet_encoded_size] in *.
+  - eapply connect_np with (lim := lim); lia.
+  - apply connect_ack_np; lia.
+  - apply publish_ack_np; lia.
+  - apply publish_ack_np; lia.
+  - apply publish_ack2_np; lia.
+  - apply publish_ack2_np; lia.
+  - eapply subscribe_np with (lim := lim); lia.
+  - apply subscribe_ack_np; lia.
+  - eapply unsubscribe_np with (lim := lim); lia.
+  - apply unsubscribe_ack_np; lia.
+  - exact I.
+  - exact I.
+  - apply disconnect_np; lia.
+  - apply auth_np; lia.
+Qed.
+
+Lemma packet_encode_frame p sz :
+  (match p with PingRequest | PingResponse => sz = 0 | _ => True end) ->
+  packet_encode p sz = w_u8 (first_byte p) >>> w_vi sz >>> body_encode p sz.
+Proof. destruct p; intros H; try reflexivity; subst sz; reflexivity. Qed.
+
+Lemma ping_size p lim :
+  match p with PingRequest | PingResponse => packet_encoded_size p lim = 0 | _ => True end.
+Proof. destruct p; exact I || reflexivity. Qed.
+
+(* one frame: first byte, Remaining Length = sz, then exactly sz bytes *)
+Definition is_frame (fb sz : N) (w body : bytes) : Prop :=
+  exists vi, enc_vi sz = Some vi /\ w = fb :: vi ++ body.
+
+Lemma packet_encode_ok p lim w : lim <= VI_MAX -> packet_encoded_size p lim <= lim ->
+  packet_encode p (packet_encoded_size p lim) = (w, Ok tt) ->
+  exists body, is_frame (first_byte p) (packet_encoded_size p lim) w body /\
+               body_encode p (packet_encoded_size p lim) = (body, Ok tt) /\
+               len body = packet_encoded_size p lim.
+Proof.
+  intros Hl Hs H. rewrite packet_encode_frame in H.
+  2:{ pose proof (ping_size p lim). destruct p; auto. }
+  apply wseq_inv in H as (x & y & E1 & E2 & ->). apply wput_inv in E1. subst x.
+  apply wseq_inv in E2 as (vi & body & E3 & E4 & ->). apply w_vi_inv in E3.
+  exists body. split; [exists vi; split; [assumption|reflexivity]|]. split; [assumption|].
+  eapply body_len; eauto.
+Qed.
+
+(* ------------------------------------------------------------------ the codec *)
+Lemma max_size_le c : max_size_of c <= VI_MAX.
+Proof.
+  unfold max_size_of, MAX_PACKET_SIZE, VI_MAX. destruct (negb (ec_max_out_size c =? 0)); lia.
+Qed.
+
+Definition strip_packet (p : packet) : packet :=
+  match strip_problem_info (EPacket p) with EPacket q => q | _ => p end.
+Lemma strip_packet_eq p : strip_problem_info (EPacket p) = EPacket (strip_packet p).
+Proof. destruct p; reflexivity. Qed.
+Lemma strip_publish p b : strip_problem_info (EPublish p b) = EPublish p b.
+Proof. reflexivity. Qed.
+Lemma strip_chunk b : strip_problem_info (EPayloadChunk b) = EPayloadChunk b.
+Proof. reflexivity. Qed.
+
+(* the packet that is really encoded *)
+Definition effective (c : ecodec) (p : packet) : packet :=
+  if ec_no_problem_info c then strip_packet p else p.
+
+Lemma encode_item_packet c p :
+  encode_item c (EPacket p) =
+  match ec_encoding_payload c with
+  | Some _ => (wfail EE_ExpectPayload, c)
+  | None =>
+    let q := effective c p in
+    let content_size := packet_encoded_size q (max_size_of c) in
+    if max_size_of c <? content_size then (wfail EE_OverMaxPacketSize, c)
+    else (wlet (check_frame_size c content_size) (fun _ => packet_encode q content_size), c)
+  end.
+Proof.
+  unfold encode_item, effective. destruct (ec_no_problem_info c); [rewrite strip_packet_eq|]; reflexivity.
+Qed.
+
+Lemma encodev_ok c it w c' : encodev c it = ((w, Ok tt), c') -> encode_item c it = ((w, Ok tt), c').
+Proof.
+  unfold encodev. destruct (encode_item c it) as [[w0 r] c0]. destruct r as [[]|e|s]; intros [= <- <-]; reflexivity.
+Qed.
+
+(* C09, packets: one frame whose Remaining Length is the size the library computed, followed by exactly
+   that many bytes *)
+Theorem v5_size_agrees_packet c p w c' :
+  encodev c (EPacket p) = ((w, Ok tt), c') ->
+  let q := effective c p in
+  let sz := encoded_size (max_size_of c) q in
+  c' = c /\ sz <= max_size_of c /\
+  exists body, is_frame (first_byte q) sz w body /\ len body = sz.
+Proof.
+  intros H. apply encodev_ok in H. rewrite encode_item_packet in H.
+  destruct (ec_encoding_payload c); [discriminate|]. cbv zeta in H. cbv zeta. unfold encoded_size.
+  set (q := effective c p) in *. set (L := max_size_of c) in *.
+  pose proof (max_size_le c) as HL. fold L in HL.
+  destruct (L <? packet_encoded_size q L) eqn:E; [discriminate|].
+  injection H as H <-. apply wlet_inv in H as ([] & _ & H).
+  apply packet_encode_ok in H as (body & Hf & _ & Hlen); [|lia|lia].
+  split; [reflexivity|]. split; [lia|]. eauto.
+Qed.
+
+(* C09, PUBLISH: the frame announces topic + id + properties + the whole payload; the bytes written are
+   the frame without the payload still owed; the payload cell remembers what is owed *)
+Definition inline_payload (buf : option bytes) : bytes := match buf with Some b => b | None => [] end.
+
+Theorem v5_size_agrees_publish c p buf w c' :
+  encodev c (EPublish p buf) = ((w, Ok tt), c') ->
+  let sz := publish_encoded_size p (max_size_of c) in
+  sz <= max_size_of c /\
+  len (inline_payload buf) <= p_payload_size p /\
+  ec_encoding_payload c' = nonzero (p_payload_size p - len (inline_payload buf)) /\
+  ec_max_out_size c' = ec_max_out_size c /\ ec_max_out_frame c' = ec_max_out_frame c /\
+  ec_no_problem_info c' = ec_no_problem_info c /\
+  exists body, is_frame (publish_first_byte p) sz w (body ++ inline_payload buf) /\
+               len body + p_payload_size p = sz.
+Proof.
+  intros H. apply encodev_ok in H. unfold encode_item in H.
+  replace (if ec_no_problem_info c then strip_problem_info (EPublish p buf) else EPublish p buf)
+    with (EPublish p buf) in H by (destruct (ec_no_problem_info c); reflexivity).
+  cbv zeta. set (L := max_size_of c) in *. pose proof (max_size_le c) as HL. fold L in HL.
+  set (sz := publish_encoded_size p L) in *.
+  destruct (L <? sz) eqn:E; [discriminate|].
+  destruct (match buf with Some b => p_payload_size p <? len b | None => false end) eqn:Eb; [discriminate|].
+  destruct (check_frame_size c sz) as [[]|e|s]; try discriminate.
+  destruct (publish_encode p sz) as [w0 r0] eqn:Ep. destruct r0 as [[]|e|s].
+  2:{ discriminate. } 2:{ discriminate. }
+  rewrite publish_encode_eq in Ep.
+  apply wseq_inv in Ep as (x & y & E1 & E2 & ->). apply wput_inv in E1. subst x.
+  apply wseq_inv in E2 as (vi & body & E3 & E4 & ->). apply w_vi_inv in E3.
+  assert (Hb : len body = sz - p_payload_size p).
+  { eapply (publish_body_len p L); [fold sz; lia|]. exact E4. }
+  assert (Hsz : p_payload_size p <= sz).
+  { unfold sz, publish_encoded_size. lia. }
+  split; [lia|].
+  destruct buf as [b|]; cbn [inline_payload].
+  - assert (len b <= p_payload_size p) by lia. rewrite N.mod_small in H by (unfold TWO32, VI_MAX in *; lia).
+    rewrite sub_chk_ok in H by lia. injection H as <- <-. cbn.
+    repeat split; try lia. exists body. split; [|lia].
+    exists vi. split; [assumption|]. cbn [app]. now rewrite <- !app_assoc.
+  - injection H as <- <-. cbn. rewrite N.sub_0_r. repeat split; try lia.
+    exists body. split; [|lia]. exists vi. split; [assumption|]. now rewrite app_nil_r.
+Qed.
+
+(* payload chunks are appended verbatim *)
+Theorem v5_size_agrees_chunk c chunk w c' :
+  encodev c (EPayloadChunk chunk) = ((w, Ok tt), c') ->
+  exists remaining, ec_encoding_payload c = Some remaining /\ w = chunk /\
+    len chunk mod TWO32 <= remaining /\
+    ec_encoding_payload c' = nonzero (remaining - len chunk mod TWO32).
+Proof.
+  intros H. apply encodev_ok in H. unfold encode_item in H.
+  replace (if ec_no_problem_info c then strip_problem_info (EPayloadChunk chunk) else EPayloadChunk chunk)
+    with (EPayloadChunk chunk) in H by (destruct (ec_no_problem_info c); reflexivity).
+  destruct (ec_encoding_payload c) as [rem|]; [|discriminate].
+  destruct (rem <? len chunk mod TWO32) eqn:E; [discriminate|]. injection H as <- <-.
+  exists rem. cbn. repeat split; lia.
+Qed.
+
+Theorem v5_size_agrees :
+  (forall c p w c', encodev c (EPacket p) = ((w, Ok tt), c') ->
+     let q := effective c p in let sz := encoded_size (max_size_of c) q in
+     exists body, is_frame (first_byte q) sz w body /\ len body = sz) /\
+  (forall c p buf w c', encodev c (EPublish p buf) = ((w, Ok tt), c') ->
+     let sz := publish_encoded_size p (max_size_of c) in
+     exists body, is_frame (publish_first_byte p) sz w (body ++ inline_payload buf) /\
+                  len body + p_payload_size p = sz).
+Proof.
+  split.
+  - intros c p w c' H. apply v5_size_agrees_packet in H. cbv zeta in *. tauto.
+  - intros c p buf w c' H. apply v5_size_agrees_publish in H. cbv zeta in *. tauto.
+Qed.
+
+(* ------------------------------------------------------------------ within the peer's limit *)
+Lemma is_frame_len fb sz w body : is_frame fb sz w body -> len w = 1 + var_int_len sz + len body.
+Proof. intros (vi & E & ->). rewrite len_cons, len_app. rewrite (enc_vi_len _ _ E). lia. Qed.
+
+Lemma set_max_frame c m : ec_max_out_frame (set_max_outbound_size c m) = m.
+Proof. reflexivity. Qed.
+
+Theorem v5_within_limit_packet c p w c' m :
+  ec_max_out_frame c = m -> m <> 0 ->
+  encodev c (EPacket p) = ((w, Ok tt), c') -> len w <= m.
+Proof.
+  intros Hm Hm0 H. pose proof H as H0. apply v5_size_agrees_packet in H0. cbv zeta in H0.
+  destruct H0 as (_ & Hsz & body & Hf & Hlen). apply is_frame_len in Hf. rewrite Hf, Hlen.
+  apply encodev_ok in H. rewrite encode_item_packet in H.
+  destruct (ec_encoding_payload c); [discriminate|]. cbv zeta in H. unfold encoded_size in *.
+  destruct (_ <? _); [discriminate|]. injection H as H _. apply wlet_inv in H as ([] & Hc & _).
+  unfold check_frame_size in Hc. rewrite Hm in Hc.
+  destruct (negb (m =? 0) && (m <? _)) eqn:E; [discriminate|]. lia.
+Qed.
+
+Theorem v5_within_limit_publish c p buf w c' m :
+  ec_max_out_frame c = m -> m <> 0 ->
+  encodev c (EPublish p buf) = ((w, Ok tt), c') ->
+  len w + (p_payload_size p - len (inline_payload buf)) <= m.
+Proof.
+  intros Hm Hm0 H. pose proof H as H0. apply v5_size_agrees_publish in H0. cbv zeta in H0.
+  destruct H0 as (Hsz & Hin & _ & _ & _ & _ & body & Hf & Hlen). apply is_frame_len in Hf.
+  rewrite Hf, len_app.
+  apply encodev_ok in H. unfold encode_item in H.
+  replace (if ec_no_problem_info c then strip_problem_info (EPublish p buf) else EPublish p buf)
+    with (EPublish p buf) in H by (destruct (ec_no_problem_info c); reflexivity).
+  cbv zeta in H. destruct (_ <? _); [discriminate|]. destruct (match buf with Some _ => _ | None => _ end); [discriminate|].
+  destruct (check_frame_size c _) as [[]|e|s] eqn:Hc; try discriminate.
+  unfold check_frame_size in Hc. rewrite Hm in Hc.
+  destruct (negb (m =? 0) && (m <? _)) eqn:E; [discriminate|]. lia.
+Qed.
+
+(* with a peer maximum m <> 0 set through set_max_outbound_size, a successful encode appends at most m
+   bytes; for a PUBLISH the whole frame (bytes written + payload still owed) is at most m *)
+Theorem v5_within_limit c0 m :
+  m <> 0 ->
+  let c := set_max_outbound_size c0 m in
+  (forall p w c', encodev c (EPacket p) = ((w, Ok tt), c') -> len w <= m) /\
+  (forall p buf w c', encodev c (EPublish p buf) = ((w, Ok tt), c') ->
+     len w + (p_payload_size p - len (inline_payload buf)) <= m).
+Proof.
+  intros Hm c. split.
+  - intros p w c'. apply v5_within_limit_packet; [reflexivity|assumption].
+  - intros p buf w c'. apply v5_within_limit_publish; [reflexivity|assumption].
+Qed.
+
+(* ------------------------------------------------------------------ failure appends nothing *)
+Theorem v5_fail_appends_nothing c it w e c' :
+  encodev c it = ((w, Err e), c') -> w = [] /\ c' = c.
+Proof.
+  unfold encodev. destruct (encode_item c it) as [[w0 r] c0] eqn:E.
+  destruct r as [[]|e0|s]; intros [= <- <- <-]. split; [reflexivity|].
+  unfold encode_item in E.
+  destruct (if ec_no_problem_info c then strip_problem_info it else it) as [pkt|pkt buf|chunk].
+  - destruct (ec_encoding_payload c); [now injection E|]. destruct (_ <? _); now injection E.
+  - cbv zeta in E. destruct (_ <? _); [now injection E|].
+    destruct (match buf with Some _ => _ | None => _ end); [now injection E|].
+    destruct (check_frame_size c _) as [[]|e1|s1]; try now injection E.
+    destruct (publish_encode pkt _) as [w1 [[]|e1|s1]]; try now injection E.
+    destruct buf; [|discriminate]. destruct (sub_chk _ _); try discriminate; now injection E.
+  - destruct (ec_encoding_payload c); [|now injection E]. destruct (_ <? _); [now injection E|discriminate].
+Qed.
+
+(* ------------------------------------------------------------------ no panic, whatever the limit *)
+Lemma check_frame_size_np c n : np (check_frame_size c n).
+Proof. unfold check_frame_size. destruct (_ && _); exact I. Qed.
+
+Theorem v5_no_limit_panics c it : wnp (fst (encodev c it)).
+Proof.
+  assert (H : wnp (fst (encode_item c it))).
+  2:{ unfold encodev. destruct (encode_item c it) as [[w r] c0]. destruct r; exact H || exact I. }
+  unfold encode_item. pose proof (max_size_le c) as HL. set (L := max_size_of c) in *.
+  destruct (if ec_no_problem_info c then strip_problem_info it else it) as [pkt|pkt buf|chunk]; cbv zeta.
+  - destruct (ec_encoding_payload c); [exact I|]. destruct (L <? packet_encoded_size pkt L) eqn:E; [exact I|].
+    cbn [fst]. apply wnp_let; [apply check_frame_size_np|]. intros _ _.
+    rewrite packet_encode_frame. 2:{ pose proof (ping_size pkt L). destruct pkt; auto. }
+    apply wnp_then; [exact I|]. apply wnp_then; [apply wnp_vi; lia|]. apply body_np; lia.
+  - destruct (L <? publish_encoded_size pkt L) eqn:E; [exact I|].
+    destruct (match buf with Some b => p_payload_size pkt <? len b | None => false end) eqn:Eb; [exact I|].
+    destruct (check_frame_size c _) as [[]|e1|s1] eqn:Hc; try exact I.
+    2:{ pose proof (check_frame_size_np c (publish_encoded_size pkt L)) as Hn. rewrite Hc in Hn. contradiction. }
+    assert (Hp : wnp (publish_encode pkt (publish_encoded_size pkt L))).
+    { rewrite publish_encode_eq. apply wnp_then; [exact I|]. apply wnp_then; [apply wnp_vi; lia|].
+      apply publish_body_np. lia. }
+    destruct (publish_encode pkt _) as [w1 [[]|e1|s1]]; try exact Hp.
+    destruct buf as [b|]; [|exact I].
+    rewrite N.mod_small by (assert (publish_encoded_size pkt L >= p_payload_size pkt)
+      by (unfold publish_encoded_size; lia); unfold TWO32, VI_MAX in *; lia).
+    rewrite sub_chk_ok by lia. exact I.
+  - destruct (ec_encoding_payload c); [|exact I]. destruct (_ <? _); exact I.
+Qed.
+
+(* "every limit value": the same through the public setter *)
+Corollary v5_no_limit_panics_setter c0 m it : wnp (fst (encodev (set_max_outbound_size c0 m) it)).
+Proof. apply v5_no_limit_panics. Qed.
